@@ -279,16 +279,17 @@ inductive Step
   | close (clear : Bool)
   | exit (clear : Bool)     -- leaving `with openFiler(..., clear=clear)`: `filer.close(clear=filer.temp or clear)`
   | exists                  -- `filer.exists(...)`: a query, touches nothing
-  | doer                    -- a `FilerDoer` run by a Doist: `enter` reopens when not opened, `exit` closes with `clear=filer.temp`
+  | doer (temp : Option Bool)   -- a `FilerDoer` run by a Doist with `temp` injected (`doist.do(temp=…)`, `Doist(temp=True)`,
+                                -- `FilerDoer(temp=True)`): `enter` reopens ONLY when not opened, `exit` closes with `clear=filer.temp`
 
 def step (c : Cfg) (s : St) : Step → St × Except Exn Unit
   | .reopen a b cl t f => reopen c s a b cl t f
   | .close a => close c s a
   | .exit a => close c s (s.temp || a)
   | .exists => (s, .ok ())
-  | .doer =>
+  | .doer t =>
     if s.opened then close c s s.temp
-    else match reopen c s false false false none none with
+    else match reopen c s false false false t none with
       | (s1, .error e) => (s1, .error e)
       | (s1, .ok _) => close c s1 s1.temp
 
